@@ -137,6 +137,8 @@ def _descr(o, d, z, **kw):
 
 def _zone_from_descr(s):
     import zones
+    if s.startswith("fixeds"):
+        return zones.fixed_seconds(int(s[6:]))
     if s.startswith("fixed"):
         return zones.fixed(int(s[5:]))
     return zones.iana(s)
@@ -949,3 +951,107 @@ def search_C10(rng, deadline, broken):
 def replay_C10(fi):
     return _c10_pair(fi["latitude"], fi["longitude"], datetime.date.fromisoformat(fi["date"]),
                      fi["h1"], fi["h2"]) is None
+
+
+# ------------------------------------------------------------------ C05
+def _c05_one(lat, lon, d, z):
+    import astral.sun as sun
+    from astral import Observer
+    from oracle import sun_almanac as A
+    o = Observer(lat, lon)
+    tz = z.tzinfo
+    n = sun.noon(o, d, tz)
+    m = sun.midnight(o, d, tz)
+    un, um = n.astimezone(datetime.timezone.utc), m.astimezone(datetime.timezone.utc)
+    hn = A.hour_angle(un, lon)
+    if abs(hn) > 0.25:
+        return "hour angle at the reported noon %s is %.3f deg (not within 0.25 of 0)" % (n.isoformat(), hn)
+    hm = A.hour_angle(um, lon)
+    if 180.0 - abs(hm) > 0.25:
+        return "hour angle at the reported midnight %s is %.3f deg (not within 0.25 of 180)" % (m.isoformat(), hm)
+    cl = max(-89.8, min(89.8, lat))
+    a0 = A.alt_az(cl, lon, un)[0]
+    for dt_ in (-600, 600):
+        a1 = A.alt_az(cl, lon, un + datetime.timedelta(seconds=dt_))[0]
+        if a1 > a0 + 0.01:
+            return "the sun is %.4f deg higher %d s from the reported noon %s" % (a1 - a0, dt_, n.isoformat())
+    off_h = n.utcoffset().total_seconds() / 3600.0
+    diff = (off_h - lon / 15.0 + 12.0) % 24.0 - 12.0
+    if abs(diff) <= 5.6 and n.date() != d:       # six hours less the equation of time and a margin
+        return "noon %s is not on the requested date %s although the zone is within six hours of mean solar time" % (
+            n.isoformat(), d)
+    start = datetime.datetime(d.year, d.month, d.day, tzinfo=tz)
+    dist = abs((m - start).total_seconds())
+    if dist > 12 * 3600 + 60:
+        return "midnight %s is %.2f h from 00:00 of %s in the zone (more than 12 h)" % (
+            m.isoformat(), dist / 3600.0, d)
+    return None
+
+
+def search_C05(rng, deadline, broken):
+    import gens
+    import zones
+    while time.time() < deadline:
+        d0 = gens.rand_date(rng, wide=False)
+        z = zones.rand_zone(rng, d0)
+        lat, lon = gens.rand_lat(rng), gens.rand_lon(rng)
+        # a second call in another zone first: caches keyed without the zone show up
+        try:
+            import astral.sun as sun
+            from astral import Observer
+            sun.noon(Observer(lat, lon), d0)
+            r = _c05_one(lat, lon, d0, z)
+        except Exception as exc:  # noqa: BLE001
+            r = "raised %r" % (exc,)
+        if r:
+            return {"clause": r, "latitude": lat, "longitude": lon, "date": d0.isoformat(),
+                    "zone": z.describe()}
+    return None
+
+
+def replay_C05(fi):
+    return _c05_one(fi["latitude"], fi["longitude"], datetime.date.fromisoformat(fi["date"]),
+                    _zone_from_descr(fi["zone"])) is None
+
+
+# ------------------------------------------------------------------ C08
+def _c08_one(lat, lon, naive_utc, z):
+    import astral.sun as sun
+    from astral import Observer
+    o = Observer(lat, lon)
+    u = naive_utc.replace(tzinfo=datetime.timezone.utc)
+    loc = u.astimezone(z.tzinfo)
+    for name, f in (("elevation", sun.elevation), ("zenith", sun.zenith), ("azimuth", sun.azimuth)):
+        a, b, c = f(o, naive_utc), f(o, u), f(o, loc)
+        da = abs(a - b)
+        db = abs(b - c)
+        if name == "azimuth":
+            da, db = min(da, 360 - da), min(db, 360 - db)
+        if da > 1e-6:
+            return "%s: naive %r vs aware UTC %r" % (name, a, b)
+        if db > 1e-6:
+            return "%s: %r in UTC vs %r for the same instant written as %s" % (name, b, c, loc.isoformat())
+    return None
+
+
+def search_C08(rng, deadline, broken):
+    import gens
+    import zones
+    while time.time() < deadline:
+        lat, lon = gens.rand_lat(rng), gens.rand_lon(rng)
+        naive = datetime.datetime.fromordinal(rng.randint(gens.D1900, gens.D2100)) + \
+            datetime.timedelta(seconds=rng.randint(0, 86399))
+        z = zones.rand_zone(rng, naive.date())
+        try:
+            r = _c08_one(lat, lon, naive, z)
+        except Exception as exc:  # noqa: BLE001
+            r = "raised %r" % (exc,)
+        if r:
+            return {"clause": r, "latitude": lat, "longitude": lon, "utc": naive.isoformat(),
+                    "zone": z.describe()}
+    return None
+
+
+def replay_C08(fi):
+    return _c08_one(fi["latitude"], fi["longitude"], datetime.datetime.fromisoformat(fi["utc"]),
+                    _zone_from_descr(fi["zone"])) is None
